@@ -377,6 +377,140 @@ pub fn programs_f0(max_clauses: usize, coinductive: bool) -> Vec<Program> {
         .collect()
 }
 
+/// F0x: propositional Horn programs over FOUR atoms `A: T0..T3`, bodies of up to
+/// three atoms written in ascending and in descending order, up to `max_clauses`
+/// clauses, modulo renaming of the traits. (Seeded change C01/patch1 needs a
+/// three-member SCC whose head also depends on an unprovable fourth atom.)
+pub fn programs_f0x(max_clauses: usize, coinductive: bool) -> Vec<Program> {
+    let traits = ["T0", "T1", "T2", "T3"];
+    let mut shapes: Vec<Rule> = vec![];
+    for h in traits {
+        let mut bodies: Vec<Vec<usize>> = vec![vec![]];
+        for i in 0..4 {
+            bodies.push(vec![i]);
+        }
+        for i in 0..4 {
+            for j in (i + 1)..4 {
+                bodies.push(vec![i, j]);
+                bodies.push(vec![j, i]);
+                for k in (j + 1)..4 {
+                    bodies.push(vec![i, j, k]);
+                    bodies.push(vec![k, j, i]);
+                }
+            }
+        }
+        for body in bodies {
+            shapes.push(Rule {
+                nvars: 0,
+                head: at(a(), h),
+                body: body.iter().map(|i| at(a(), traits[*i])).collect(),
+            });
+        }
+    }
+    let mut out: Vec<Vec<Rule>> = vec![];
+    fn rec(shapes: &[Rule], start: usize, max: usize, cur: &mut Vec<Rule>, out: &mut Vec<Vec<Rule>>) {
+        if !cur.is_empty() {
+            out.push(cur.clone());
+        }
+        if cur.len() == max {
+            return;
+        }
+        for i in start..shapes.len() {
+            cur.push(shapes[i].clone());
+            rec(shapes, i + 1, max, cur, out);
+            cur.pop();
+        }
+    }
+    rec(&shapes, 0, max_clauses, &mut vec![], &mut out);
+    // symmetry reduction: keep a program only if no renaming of the traits gives a smaller one
+    let perms: Vec<Vec<usize>> = {
+        fn p(n: usize, cur: &mut Vec<usize>, out: &mut Vec<Vec<usize>>) {
+            if cur.len() == n {
+                out.push(cur.clone());
+                return;
+            }
+            for i in 0..n {
+                if !cur.contains(&i) {
+                    cur.push(i);
+                    p(n, cur, out);
+                    cur.pop();
+                }
+            }
+        }
+        let mut o = vec![];
+        p(4, &mut vec![], &mut o);
+        o
+    };
+    let rename = |r: &Rule, perm: &[usize]| -> Rule {
+        let f = |n: &str| -> String {
+            match traits.iter().position(|t| *t == n) {
+                Some(i) => traits[perm[i]].to_string(),
+                None => n.to_string(),
+            }
+        };
+        Rule {
+            nvars: 0,
+            head: Atom { tr: f(&r.head.tr), self_ty: r.head.self_ty.clone(), args: vec![] },
+            body: r.body.iter().map(|b| Atom { tr: f(&b.tr), self_ty: b.self_ty.clone(), args: vec![] }).collect(),
+        }
+    };
+    let canon = |p: &Vec<Rule>| {
+        let mut q = p.clone();
+        q.sort();
+        q
+    };
+    out.into_iter()
+        // every atom used must be "connected": skip programs that do not mention at least 3 traits
+        .filter(|p| {
+            let mut used: Vec<&str> = vec![];
+            for r in p {
+                for n in std::iter::once(&r.head.tr).chain(r.body.iter().map(|b| &b.tr)) {
+                    if !used.contains(&n.as_str()) {
+                        used.push(n.as_str());
+                    }
+                }
+            }
+            // F0 already covers several clauses per atom over three atoms; F0x looks at one clause per
+            // atom over four atoms (cycles through three atoms with a fourth one hanging off)
+            let mut heads: Vec<&str> = p.iter().map(|r| r.head.tr.as_str()).collect();
+            heads.sort();
+            heads.dedup();
+            used.len() >= 4 && heads.len() == p.len()
+        })
+        .filter(|p| {
+            let me = canon(p);
+            // only renamings that stay inside the generated shape set (bodies ascending or
+            // descending) compete; otherwise a class could lose its only representative
+            let in_shape_set = |q: &Vec<Rule>| {
+                q.iter().all(|r| {
+                    let names: Vec<&str> = r.body.iter().map(|b| b.tr.as_str()).collect();
+                    names.windows(2).all(|w| w[0] < w[1]) || names.windows(2).all(|w| w[0] > w[1])
+                })
+            };
+            perms.iter().all(|perm| {
+                let q: Vec<Rule> = p.iter().map(|r| rename(r, perm)).collect();
+                !in_shape_set(&q) || canon(&q) >= me
+            })
+        })
+        .map(|impls| Program {
+            structs: vec![StructDecl { name: "A".into(), arity: 0 }],
+            traits: traits.iter().map(|t| TraitDecl { name: t.to_string(), arity: 0, coinductive }).collect(),
+            impls,
+        })
+        .collect()
+}
+
+pub fn goals_f0x() -> Vec<Goal> {
+    let mut v = vec![];
+    for t in ["T0", "T1", "T2", "T3"] {
+        v.push(Goal::Atom(at(a(), t)));
+    }
+    v.push(Goal::And(vec![Goal::Atom(at(a(), "T0")), Goal::Atom(at(a(), "T1"))]));
+    v.push(Goal::And(vec![Goal::Atom(at(a(), "T2")), Goal::Atom(at(a(), "T0"))]));
+    v.push(Goal::Not(Box::new(Goal::Atom(at(a(), "T0")))));
+    v
+}
+
 pub fn goals_f0() -> Vec<Goal> {
     let mut v = vec![];
     for t in ["T0", "T1", "T2"] {
@@ -458,6 +592,29 @@ pub fn goals_f1a(thorough: bool) -> Vec<Goal> {
     v.push(fa(1, ex(&[0], Goal::Eq(x(0), k(1)))));
     v.push(fa(1, ex(&[0], Goal::And(vec![Goal::Eq(x(0), s(k(1))), ga(x(0), "T0")]))));
     v.push(fa(1, ex(&[0], ga(x(0), "T0"))));
+    // two nested foralls (two universes), both placeholders satisfy the goal by hypothesis
+    v.push(fa(
+        1,
+        Goal::Forall(
+            2,
+            1,
+            Box::new(Goal::If(
+                vec![at(k(1), "T0"), at(k(2), "T0")],
+                Box::new(ex(&[0], ga(x(0), "T0"))),
+            )),
+        ),
+    ));
+    v.push(fa(
+        1,
+        Goal::Forall(
+            2,
+            1,
+            Box::new(Goal::If(
+                vec![at(k(1), "T0"), at(k(2), "T0")],
+                Box::new(ex(&[0], ga(s(x(0)), "T0"))),
+            )),
+        ),
+    ));
     if thorough {
         v.push(ex(&[0], ga(s(s(x(0))), "T0")));
         v.push(ex(&[0, 1], Goal::And(vec![ga(x(0), "T0"), ga(s(x(1)), "T0")])));
